@@ -2567,6 +2567,7 @@ def normalize_module(tree: ast.Module, extern=None) -> ast.Module:
                 n2.collapse_aliases(n)
             if n2.fuse_collect_into_comprehension(n):
                 n2.inline_pure_flags(n)
+            n2.scalarise_local_dicts(n)
     tree = AttrCalls().visit(tree)
     n2.sort_keywords(tree)
     ntypes = _namedtuples(tree)
